@@ -262,7 +262,8 @@ func (fb *functionBuilder) emitDefer(f int8, numVariadic int8, off, arg runtime.
 // emitDelete appends a new "delete" instruction to the function body.
 //
 //	delete(m, k)
-func (fb *functionBuilder) emitDelete(m, k int8) {
+func (fb *functionBuilder) emitDelete(m, k int8, pos *ast.Position) {
+	fb.addPosAndPath(pos)
 	fb.fn.Body = append(fb.fn.Body, runtime.Instruction{Op: runtime.OpDelete, A: m, B: k})
 }
 
